@@ -83,7 +83,7 @@ func (ref Reference) ReferenceTargets(ctx context.Context, _ *TargetContext) ref
 		if diags.HasErrors() {
 			return reference.Targets{}
 		}
-		if val.Type() != cty.String {
+		if val.Type() != cty.String || val.IsNull() || !val.IsKnown() {
 			return reference.Targets{}
 		}
 		startPos := hcl.Pos{
